@@ -38,11 +38,19 @@ OBLIGATIONS = [
     # extension: every branch of compute_orthonormal_basis, orthonormality
     "C10_tie_ortho_branches", "C10_ortho_branches", "C10_ortho_branches_zero_pivot_refuted", "C10_orthonormal_branches",
     "C10_orthonormal", "C10_orthonormal_metric_refuted", "C10_basis_collinear_branches",
+    # extension: every copy of _center_xi_realizations, the mixture model
+    "C10_script_all_classes", "C10_gauge_mixture", "C10_mixture_orthogonal", "C10_mixture_sources_centring_refuted",
 ]
 
 KINDS_GAUGE = ["logistic", "linear", "joint"]          # model kinds with the re-centring step
 KINDS_ORTHO = ["logistic", "linear", "joint", "shared_speed_logistic"]   # kinds with an orthonormal basis
-SHORT = {"logistic": "logistic", "linear": "linear", "joint": "joint", "shared_speed_logistic": "shared"}
+SHORT = {"logistic": "logistic", "linear": "linear", "joint": "joint", "shared_speed_logistic": "shared", "mixture_logistic": "mixture"}
+# extension: every shipped kind is built and asked whether its class resolves a `_center_xi_realizations` (KINDS_GAUGE + the mixture
+# model today); KINDS_STEP = the kinds on which the step alone is exercised (oracle + interval lemmas)
+KINDS_ALL = ["logistic", "linear", "shared_speed_logistic", "joint", "mixture_logistic"]
+KINDS_MIXTURE = ["mixture_logistic"]                      # outside the property's quantifier: has its own copy of the step
+KINDS_STEP = KINDS_GAUGE + KINDS_MIXTURE
+KINDS_WIRING = KINDS_ORTHO + KINDS_MIXTURE
 
 # canonical parameter order of the generated scalar definitions
 ORDER = ["y", "noise_std", "event_time", "event_bool", "log_g", "g", "log_v0", "log_rho", "n_log_nu", "deltas_padded",
@@ -157,6 +165,22 @@ def traced_definitions(out, sigs):
                 ref = Sum("nll_attach_y_ind", "nll_attach_event_ind")
                 if getattr(f, "f", None) is not ref.f or tuple(f.parameters) != tuple(ref.parameters):
                     raise Untranslatable("joint nll_attach_ind is no longer Sum(nll_attach_y_ind, nll_attach_event_ind)")
+
+
+def traced_definitions_mixture(out, sigs):
+    """the mixture model (sources are mandatory): trajectory and attachment term, the DAG cut at `space_shifts`"""
+    from harness.translate.formulas import expr_of
+    from leaspy.constants import constants as cst
+    named = {Fraction(*float(cst.INFINITY).as_integer_ratio()): INFINITY_NAME}
+    for kind in KINDS_MIXTURE:
+        m = build_model(kind, 3, 1)
+        st = symbolic(m)
+        for short, node in (("traj", "model"), ("attach", "nll_attach_ind")):
+            e = expr_of(st[node])
+            ps = params_of(e)
+            name = f"gen_{SHORT[kind]}_{short}_src"
+            out.append(defn(name, ps, e, named))
+            sigs[name] = ps
 
 
 # ============================================================================== T1 (b): compute_orthonormal_basis by ast
@@ -420,12 +444,12 @@ def _fn_ast(fn):
     return f, body
 
 
-def script_of(cls):
-    """`cls._center_xi_realizations` as a list of ops (Gallina literal) + the python-side op list"""
-    fn = cls._center_xi_realizations.__func__
+def script_of(cls, method="_center_xi_realizations"):
+    """`cls.<method>` (default `_center_xi_realizations`) as a list of ops (Gallina literals)"""
+    fn = getattr(cls, method).__func__
     f, body = _fn_ast(fn)
     if [a.arg for a in f.args.args] != ["cls", "state"]:
-        raise Untranslatable("_center_xi_realizations signature changed")
+        raise Untranslatable(f"{method} signature changed")
     locs = set()
 
     def ex(n):
@@ -458,13 +482,23 @@ def script_of(cls):
     return ops
 
 
-def check_css(cls):
-    """compute_sufficient_statistics must be: centre first, then the parent's statistics (which only reads the state)"""
+def check_css(cls, allow_extra=False):
+    """compute_sufficient_statistics must be: centre first, then the parent's statistics (which only reads the state).
+    `allow_extra` (mixture model only): further `cls._center_<x>_realizations(state)` calls may sit between the two; their
+    method names are returned (they are translated and reported separately, they are not part of the xi step)."""
+    import re
     fn = cls.compute_sufficient_statistics.__func__
     f, body = _fn_ast(fn)
     got = [ast.unparse(s) for s in body]
     want = ["cls._center_xi_realizations(state)", "return super().compute_sufficient_statistics(state)"]
-    if got != want:
+    extra = []
+    if allow_extra and len(got) >= 2 and got[0] == want[0] and got[-1] == want[1]:
+        for g in got[1:-1]:
+            mm = re.fullmatch(r"cls\.(_center_[a-z_]+_realizations)\(state\)", g)
+            if not mm or mm.group(1) == "_center_xi_realizations":
+                raise Untranslatable(f"{cls.__name__}.compute_sufficient_statistics: unexpected statement `{g}`")
+            extra.append(mm.group(1))
+    elif got != want:
         raise Untranslatable(f"{cls.__name__}.compute_sufficient_statistics is {got}, expected {want}")
     # the parent implementation reached by super(): no assignment into the state
     owner = next(k for k in cls.__mro__ if "compute_sufficient_statistics" in k.__dict__)
@@ -478,6 +512,61 @@ def check_css(cls):
         if isinstance(n, ast.Call) and isinstance(n.func, ast.Attribute) and isinstance(n.func.value, ast.Name) \
                 and n.func.value.id == "state" and n.func.attr in ("put", "__setitem__", "revert", "put_individual_latent_variables"):
             raise Untranslatable(f"{parent.__name__}.compute_sufficient_statistics modifies the state")
+    return extra
+
+
+def recentring_classes_in_source():
+    """every class of leaspy/models/**.py whose body defines `_center_xi_realizations`: {class name: file}"""
+    from harness.common import SRC
+    found = {}
+    for path in sorted((SRC / "models").rglob("*.py")):
+        tree = ast.parse(path.read_text())
+        for n in ast.walk(tree):
+            if isinstance(n, ast.ClassDef) and any(isinstance(b, (ast.FunctionDef, ast.AsyncFunctionDef)) and b.name == "_center_xi_realizations"
+                                                    for b in n.body):
+                if n.name in found:
+                    raise Untranslatable(f"two classes named {n.name} define _center_xi_realizations")
+                found[n.name] = str(path.relative_to(SRC))
+    if not found:
+        raise Untranslatable("no class defines _center_xi_realizations")
+    return found
+
+
+def all_scripts(out):
+    """(extension) the step of EVERY class that defines it, through every shipped kind that resolves to it:
+    gen_center_scripts = [((kind, defining class), (model has n_log_nu, script))], gen_center_classes = the defining classes
+    found in the source (each must be reached by a kind), gen_center_extra_<kind>_<x> = the other centring methods the mixture
+    model calls in the same compute_sufficient_statistics."""
+    in_source = recentring_classes_in_source()
+    entries, owners, extras = [], {}, {}
+    for kind in KINDS_ALL:
+        m = build_model(kind, 3, 1)
+        cls = type(m)
+        if not hasattr(cls, "_center_xi_realizations"):
+            continue
+        owner = next(k for k in cls.__mro__ if "_center_xi_realizations" in k.__dict__)
+        if owner.__name__ not in in_source:
+            raise Untranslatable(f"{kind}: _center_xi_realizations resolves to {owner.__name__}, not found by the source scan")
+        if kind not in KINDS_STEP:
+            raise Untranslatable(f"kind {kind} has a re-centring step but is not in KINDS_STEP")
+        ex = check_css(cls, allow_extra=kind in KINDS_MIXTURE)
+        nu = "n_log_nu" in m.state.dag
+        ops = script_of(cls)
+        owners.setdefault(owner.__name__, []).append(kind)
+        entries.append(f'(("{kind}", "{owner.__name__}"), ({"true" if nu else "false"},\n     [ ' + ";\n       ".join(ops) + " ]))")
+        for meth in ex:
+            x = meth[len("_center_"):-len("_realizations")]
+            extras[f"gen_center_extra_{SHORT[kind]}_{x}"] = script_of(cls, meth)
+    missing = [c for c in in_source if c not in owners]
+    if missing:
+        raise Untranslatable(f"classes defining _center_xi_realizations that no shipped kind resolves to: {missing}")
+    if sorted(k for v in owners.values() for k in v) != sorted(KINDS_STEP):
+        raise Untranslatable(f"kinds with the step are {owners}, expected {KINDS_STEP}")
+    out.append("Definition gen_center_scripts : list ((string * string) * (bool * list sop)) :=\n  [ " + ";\n    ".join(entries) + " ].\n")
+    out.append("Definition gen_center_classes : list string :=\n  [ " + "; ".join(f'"{c}"' for c in sorted(in_source)) + " ].\n")
+    for name, ops in sorted(extras.items()):
+        out.append(f"Definition {name} : list sop :=\n  [ " + ";\n    ".join(ops) + " ].\n")
+    return dict(classes=in_source, kinds_by_class=owners, extra_scripts=sorted(extras))
 
 
 # ============================================================================== T1 (d): DAG wiring by introspection
@@ -488,7 +577,7 @@ def wiring_definitions(out, sigs):
     from harness.translate.formulas import definition, expr_of
     from leaspy.utils.functional import NamedInputFunction
     from leaspy.utils.linalg import compute_orthonormal_basis
-    for kind in KINDS_ORTHO:
+    for kind in KINDS_WIRING:
         m = build_model(kind, 3, 1)
         dag = m.state.dag
         k = SHORT[kind]
@@ -588,6 +677,9 @@ def translate(run: Run) -> bool:
             ops = script_of(cls)
             classes[kind] = cls.__name__
             out.append(f"Definition gen_center_script_{SHORT[kind]} : list sop :=\n  [ " + ";\n    ".join(ops) + " ].\n")
+        out.append("(* ---- (c') every class defining the step, the mixture model's formulas ---- *)\n")
+        run.extra["recentring_all"] = all_scripts(out)
+        traced_definitions_mixture(out, sigs)
         out.append("(* ---- (d) DAG wiring ---- *)\n")
         wiring_definitions(out, sigs)
         run.gen("GenC10", "\n".join(out))
@@ -1283,6 +1375,24 @@ def search_branches(run: Run, T, thorough: bool):
                     for r, q in cells:
                         T.add(f"nth {q} (nth {r} (gen_ortho_basis_{nd}d {strip} {_Rl(d)} {Gq}) []) 0", B[r, q], _tolq(1, 3e-6),
                               what=f"compute_orthonormal_basis:{nd}d-metric", d=d, G=G, strip_col=strip, index=[r, q])
+            # directed, oracle only: the pivot coordinate of G d dominates (either sign) — u = D - alpha e_j must not cancel
+            # (alpha has the sign opposite to D_j); a reflection with the other sign is mathematically a Householder basis too but
+            # loses the orthogonality in float32 exactly here
+            for sgn in (-1.0, 1.0):
+                strip = rng.randrange(n)
+                d = [rng.choice([-1, 1]) * rng.randint(1, 4) / 512 for _ in range(n)]
+                d[strip] = sgn * rng.randint(2, 8) / 2
+                G = 1.0 if nd == 0 else ([1.0] * n if nd == 1 else [[1.0 if i == j else 0.0 for j in range(n)] for i in range(n)])
+                if nd == 2:
+                    k = (strip + 1) % n
+                    G[k][k] = 2.0
+                    G[strip][k] = G[k][strip] = 1 / 64          # symmetric, positive definite, not diagonal
+                inp = dict(what="basis", d=d, G=G, strip_col=strip, dtype="float32")
+                fails, B = basis_failures(inp)
+                run.case(("basis", tuple(d), json.dumps(G), strip), nontrivial=True)
+                run.count("basis", f"{nd}d-metric/dim={n}/pivot=dominant-{'neg' if sgn < 0 else 'pos'}")
+                for sig, what, e, o in fails:
+                    run.fail(sig, what, inp, expected=e, observed=o)
     # the witnesses of C10_ortho_branches_zero_pivot_refuted / C10_orthonormal_metric_refuted on the real function
     import torch
     rec = {}
